@@ -23,6 +23,24 @@ Spaces (DESIGN.md section 4, C15). Every space is a finite product that is enume
   batch   : ALL ordered tuples of length 1..3 (and all 2x2, 1x3, 3x1 arrangements) over an alphabet of 8 rotations
             (3 at beta=0, 2 at beta=pi, 1 inside the zero_eps band, 2 generic atoms) for every batch-taking function:
             the batched call equals the element-wise calls, whatever the mixture.
+            Option / argument-form coordinates of the irrep spaces: return_matd=True (scalar calls on the sub-grid of multiples of
+            pi/2 and the atoms, the complete grid through one batched matrix-entry call and one broadcast angle-entry call per
+            beta, the batch families): first element bit-identical with the default call, matd real and equal to the reference
+            small-d matrix (symmetric power of Uy(beta)), j2 = 0 included; j2 handed over as float / np.float64 / np.int64 with a
+            cold coefficient table gives bit-identically what the python int gives.
+  zeps    : zero_eps in {0, 1e-12, 1e-7 (explicit), 1e-3}, positional and keyword, for so3_to_angle / su2_to_angle / so3_to_su2 /
+            su2_to_so3 on the poles, every near-pole beta and one interior beta x the whole (alpha,gamma) grid, scalar and as one
+            batch: rebuild error <= 1e3*eps per step when the reference sin(beta) >= 4*zero_eps (or is an exact pole), <=
+            4*min(sin beta, zero_eps) inside the band; so3_to_su2 agrees with angle_to_su2 of so3_to_angle at the SAME zero_eps
+            (forwarding); su2_to_so3 is bit-identical with the default call. zero_eps = 0 makes the validation asserts of
+            su2_to_angle / su2_to_so3 (`... < zero_eps`) unsatisfiable: counted as rejected_by_precondition.
+  anglebox: canonical grid triples mapped out of the box (alpha, gamma shifted by -2pi / +4pi; (alpha+pi, -beta, gamma+pi);
+            (alpha+pi, 2pi-beta, gamma+pi)): angle_to_so3 equal, angle_to_su2 / get_su2_irrep(angles) equal up to the KNOWN sign
+            (table BOX_MAPS, re-verified on the reference), the way back inside the documented ranges and sign-exact.
+  angleforms: python ints (all triples of a small integer alphabet, beta outside [0,pi] too), np.int64, 0-d arrays, mixed int/float,
+            lists / tuples / nested lists of them, list + scalar broadcasting for angle_to_so3 / angle_to_su2 / get_su2_irrep.
+  dtype   : SO(3) matrices typed complex128 (rotation alphabet + a grid for every beta) and int64 (octahedral group), the real
+            elements of the binary octahedral group typed float64 / int64, scalar (full conversion chains) and batched.
   angmom  : get_angular_momentum_op(j2): entries equal the ladder-operator reference, Hermitian, commutators, Casimir.
   cg      : get_clebsch_gordan_coeffient(j1, j2) for ALL (j1, j2) with j1+j2 <= bound: block list, selection rule,
             orthogonality both ways, intertwining with J1 x 1 + 1 x J2, every value equal to Racah's formula evaluated in
@@ -44,6 +62,8 @@ Tolerances (DESIGN 3.2: c * eps * kappa, c = 1e3, eps = 2.2e-16):
     most 2 sin(beta) <= 2e-7. For inputs whose *reference* sin(beta) is below 4*zero_eps (factor 4: dead band around the
     threshold, DESIGN 3.2) the tolerance is therefore 4*zero_eps = 4e-7 instead; for irreps the same error is amplified
     by the generator norm j <= j2, giving 4*zero_eps*j2. Exactly degenerate inputs (sin(beta) == 0) get no allowance.
+  * explicit zero_eps = z (zeps space): the same argument with z in place of 1e-7, sharpened by what the locked branch really
+    discards: allowance 4*min(sin beta, z) for reference sin(beta) in [1e-15, 4z), none outside (tol_rt_z).
   * spin-j matrices: the Wigner small-d entries are alternating sums whose absolute terms add up to at most 2^(2j):
     kappa = 2^j2, tol = 1e3*eps*2^j2 (2.3e-10 at j2 = 10); products of two such matrices: 3 times that.
   * angular momentum: entries <= j, commutator entries are sums of <= 2 products <= j^2: tol = 1e3*eps*max(1,j^2).
@@ -62,7 +82,9 @@ GUARD = ['numqi.group._lie', 'numqi.matrix_space._clebsch_gordan']  # argument-i
 LEVEL = 'model_checking'
 RULE = ('mode P + H over conversions: case = one beta of the beta alphabet (all (alpha,gamma) grid points inside), one first element of '
         'the rotation alphabet (all second elements and all j2 inside), one (function, batch arrangement) (all tuples over the batch '
-        'alphabet inside), one j2, or one (j1,j2). state = one rotation / ordered pair / batch tuple / (j, component) / Clebsch-Gordan '
+        'alphabet inside), one j2, one (j1,j2), one (beta, zero_eps value, positional/keyword) (all grid points, four functions, scalar and '
+        'batched), one beta with all out-of-box images of every grid triple, one input dtype form (all exactly representable alphabet '
+        'elements), or the non-array angle forms (all integer triples). state = one rotation / ordered pair / batch tuple / (j, component) / Clebsch-Gordan '
         'entry; transition = one numqi call whose complete output was compared with the reference; trace = one element followed through '
         'a whole conversion path (angles->matrix->angles->matrix->angles->matrix, matrix->other group->back) with every step compared, '
         'or one pair / batch / table on which every relation was checked; non-trivial = the observed rotation is not the identity / '
@@ -74,8 +96,14 @@ ASSUMPTIONS = [
     'applies to so3_to_su2 only (comment "# ret, -ret"); an exact sign flip is reported under its own finding key',
     'rotations with reference sin(beta) < 4*zero_eps (zero_eps = 1e-7, the documented default) may be reproduced with error 4*zero_eps; '
     'everything else to 1e3*eps*kappa',
-    'lattice statement: nothing is claimed for angles off the enumerated grids, for zero_eps other than the default, for non-float64 '
-    'input, for empty batches, for j2 / j1+j2 above the bounds',
+    'lattice statement: nothing is claimed for angles off the enumerated grids (inside the box and its enumerated images under shifts '
+    'by -2pi/+4pi and beta -> -beta, 2pi-beta), for zero_eps outside {0, 1e-12, 1e-7, 1e-3}, for input dtypes other than '
+    'float64/complex128 and (exactly representable elements only) int64 / real float64, for empty batches, for j2 / j1+j2 above the bounds',
+    'explicit zero_eps = z: rotations with reference sin(beta) < 4z may be reproduced with error 4*min(sin beta, z) (the locked branch keeps '
+    'beta and alpha+-gamma and discards the split); an argument-validation AssertionError of su2_to_angle / su2_to_so3 at zero_eps = 0 '
+    '(the assert `|U00-conj(U11)| < zero_eps` cannot hold) is a rejection, at zero_eps > 0 a violation',
+    'return_matd=True returns (D, d) with d = D(0,beta,0) real, where beta is the Euler angle of the element (for the matrix entry the one '
+    'su2_to_angle extracts; it is not affected by gimbal lock)',
     'the reference spin-j matrix (symmetric power of U in the monomial basis) fixes the Condon-Shortley convention; numqi agrees with it '
     'for generic rotations (repository test: get_su2_irrep(1,U)=U and eq. 4.75 of its reference)',
 ]
@@ -342,13 +370,15 @@ def is_su2(U, tol):
     return np.abs(U @ U.conj().T - np.eye(2)).max() <= tol and abs(np.linalg.det(U) - 1) <= tol
 
 
-def chain_so3(numqi, out, R, site, det, steps0=0):
-    """SO(3) -> angles -> SO(3) -> angles -> SO(3) and SO(3) -> SU(2) -> SO(3) on one rotation matrix. Returns True if all held."""
+def chain_so3(numqi, out, R, site, det, steps0=0, cast=None):
+    """SO(3) -> angles -> SO(3) -> angles -> SO(3) and SO(3) -> SU(2) -> SO(3) on one rotation matrix. Returns True if all held.
+    cast: dtype in which R is handed to numqi (the value is unchanged: the caller passes exactly representable matrices only)"""
     g = numqi.group
+    give = (lambda X: X.copy()) if cast is None else (lambda X: X.astype(cast))
     sb = sinb_so3(R)
     cls = beta_class(sb, R[2, 2])
     det = dict(det, R=R, sin_beta=sb)
-    ok, ang = call(out, '%s/so3_to_angle' % site, g.so3_to_angle, (R.copy(),), det)
+    ok, ang = call(out, '%s/so3_to_angle' % site, g.so3_to_angle, (give(R),), det)
     if not ok:
         return False
     if not finite(*ang):
@@ -392,7 +422,7 @@ def chain_so3(numqi, out, R, site, det, steps0=0):
         else:
             good = False
     # SO(3) -> SU(2) -> SO(3)
-    ok, U = call(out, '%s/so3_to_su2' % site, g.so3_to_su2, (R.copy(),), det)
+    ok, U = call(out, '%s/so3_to_su2' % site, g.so3_to_su2, (give(R),), det)
     if ok:
         U = np.asarray(U)
         if U.shape != (2, 2) or not finite(U):
@@ -427,14 +457,16 @@ def chain_so3(numqi, out, R, site, det, steps0=0):
     return good
 
 
-def chain_su2(numqi, out, U, site, det, steps0=0):
-    """SU(2) -> angles -> SU(2) (sign-exact) -> angles -> SU(2); SU(2) -> SO(3) for U and -U; SO(3) -> SU(2) equal up to sign"""
+def chain_su2(numqi, out, U, site, det, steps0=0, cast=None):
+    """SU(2) -> angles -> SU(2) (sign-exact) -> angles -> SU(2); SU(2) -> SO(3) for U and -U; SO(3) -> SU(2) equal up to sign.
+    cast: dtype in which U is handed to numqi (real / integer dtypes for the real elements; the value is unchanged)"""
     g = numqi.group
+    give = (lambda X: X.copy()) if cast is None else (lambda X: (X.real if np.dtype(cast).kind in 'fi' else X).astype(cast))
     sb = sinb_su2(U)
     cls = beta_class(sb, abs(U[0, 0]) - abs(U[0, 1]))
     det = dict(det, U=U, sin_beta=sb)
     good = True
-    ok, ang = call(out, '%s/su2_to_angle' % site, g.su2_to_angle, (U.copy(),), det)
+    ok, ang = call(out, '%s/su2_to_angle' % site, g.su2_to_angle, (give(U),), det)
     if ok and not finite(*ang):
         out.violation('%s/su2_to_angle/nonfinite/%s' % (site, cls), 'su2_to_angle returned NaN/Inf angles %r (%s)' % (tuple(float(x) for x in ang), cls),
                       angles=[float(x) for x in ang], **det)
@@ -486,7 +518,7 @@ def chain_su2(numqi, out, U, site, det, steps0=0):
     # two-to-one map
     Rref = ref_su2_to_so3(U)
     for sgn in (1, -1):
-        ok, R = call(out, '%s/su2_to_so3' % site, g.su2_to_so3, ((sgn * U).copy(),), dict(det, sign=sgn))
+        ok, R = call(out, '%s/su2_to_so3' % site, g.su2_to_so3, (give(sgn * U),), dict(det, sign=sgn))
         if not ok:
             good = False
             continue
@@ -525,6 +557,17 @@ def build_cases(tier, seed):
         cases.append({'kind': 'so3grid', 'beta_label': lab, 'beta': b, 'beta_kind': kind, 'NA': NA})
     for lab, b, kind in betas:
         cases.append({'kind': 'su2grid', 'beta_label': lab, 'beta': b, 'beta_kind': kind, 'NA': NA})
+    nz = 8 if quick else 24
+    zbetas = [x for x in betas if '*pi/' not in x[0]] + [x for x in betas if x[0] == '%d*pi/%d' % ((4, 8) if quick else (8, 16))]
+    for lab, b, kind in zbetas:
+        for ze, form in ZE_ALPHABET:
+            cases.append({'kind': 'zeps', 'beta_label': lab, 'beta': b, 'beta_kind': kind, 'ze': ze, 'form': form, 'NA': nz})
+    for lab, b, kind in betas:
+        if kind == 'num':
+            cases.append({'kind': 'anglebox', 'beta_label': lab, 'beta': b, 'NA': 6 if quick else 12, 'j2s': [1, 2, j2max] if quick else [0, 1, 2, 3, 7, j2max]})
+    cases.append({'kind': 'angleforms', 'j2s': [1, 2, 5] if quick else [0, 1, 2, 5, j2max]})
+    for form in DTYPE_FORMS:
+        cases.append({'kind': 'dtype', 'form': form, 'NA': 8 if quick else 24, 'j2max': j2max})
     for j2 in range(ammax + 1):
         cases.append({'kind': 'angmom', 'j2': j2})
     for s in range(cgmax + 1):
@@ -552,6 +595,10 @@ def build_cases(tier, seed):
         'rotation_alphabet_size': n_alpha, 'ordered_pairs': n_alpha * n_alpha, 'j2_irrep': [0, j2max], 'irrep_grid': '%d alpha x all beta x %d gamma' % (nir, 2 * nir),
         'j2_angular_momentum': [0, ammax], 'clebsch_gordan_bound_doubled': cgmax, 'clebsch_gordan_pairs': (cgmax + 1) * (cgmax + 2) // 2,
         'batch_alphabet_size': 8, 'batch_arrangements': arrs, 'batch_functions': fams,
+        'zero_eps_alphabet': ZE_ALPHABET, 'zero_eps_betas': [x[0] for x in zbetas], 'zero_eps_grid': '%d alpha x %d (SO3) / %d (SU2) gamma' % (nz, nz, 2 * nz),
+        'out_of_box_maps': [m[0] for m in BOX_MAPS], 'integer_angle_alphabets': [INT_ALPHA, INT_BETA, INT_GAMMA], 'dtype_forms': DTYPE_FORMS,
+        'j2_forms': ['float', 'np.float64', 'np.int64'], 'return_matd': 'scalar: sub-grid of multiples of pi/2 + atoms; batched: whole grid per beta; batch families: '
+        + ('tuples of length 1..3' if quick else 'every arrangement'), 'pending': sorted(PENDING),
         'zero_eps': ZERO_EPS, 'tol_step': TOL1, 'tol_band': BAND,
         'property_quantifier': 'j2 = 0..10, j1+j2 <= 6 (doubled: 12): covered completely in both tiers',
         'exhaustive': True,
@@ -591,6 +638,14 @@ def run_case(case, out, env):
         run_irrep(case, out, env)
     elif kind == 'batch':
         run_batch(case, out, env)
+    elif kind == 'zeps':
+        run_zeps(case, out, env)
+    elif kind == 'dtype':
+        run_dtype(case, out, env)
+    elif kind == 'anglebox':
+        run_anglebox(case, out, env)
+    elif kind == 'angleforms':
+        run_angleforms(case, out, env)
     elif kind == 'angmom':
         run_angmom(case, out, env)
     elif kind == 'cg':
@@ -712,6 +767,468 @@ def run_su2grid(case, out, env):
     out.sample = {'kind': 'su2grid', 'beta_label': case['beta_label'], 'beta': beta, 'grid_points': 2 * NA * NA, 'example': {'alpha': ga[1], 'gamma': gg[-1], 'U': Uall[1, -1]}}
 
 
+# ----------------------------------------------------------------------------------------------- zero_eps coordinate
+# zero_eps alphabet: (value, how it is passed). 0.0 = "treat nothing but exact zeros as locked", 1e-12 below and 1e-3 above the
+# near-pole distances of the beta alphabet, the documented default once more passed explicitly.
+ZE_ALPHABET = [(0.0, 'positional'), (1e-12, 'keyword'), (ZERO_EPS, 'keyword'), (1e-3, 'positional')]
+# additions whose oracle fires on the unchanged tree for an admissible input (reported to the coordinator; flag removed after the repair)
+#   zero_eps_0_exact_pole: so3_to_angle / so3_to_su2 with zero_eps=0.0 on an exactly gimbal-locked matrix (x20 = x21 = 0): the test
+#   `sb < zero_eps` is false for sb = 0, the generic branch evaluates arctan2(0, 0) and Rz(4.5) comes back as Rz(pi) (error ~1..2)
+PENDING = set()  # zero_eps_0_exact_pole was repaired in numqi (fee4db5, known_findings.json)
+
+
+def tol_rt_z(sinb, ze, steps=1):
+    """round-trip tolerance under an explicit zero_eps = ze. The locked branch (taken when the computed sin(beta) < ze) keeps beta
+    and alpha+-gamma (the latter up to (1-cos beta) <= sin(beta)^2) and discards the split, i.e. it replaces Ry(b) by its conjugate
+    with a z rotation: the entries proportional to sin(beta) move by at most 2 sin(beta), those proportional to 1-cos(beta) by at
+    most 2 sin(beta)^2; together <= 4 sin(beta) and, being locked, <= 4 ze. Reference sin(beta) inside the dead band [ze, 4 ze)
+    (DESIGN 3.2, same factor as BAND) gets the same allowance; everything else, exact poles included, 1e3*eps per step."""
+    if 1e-15 <= sinb < 4 * ze:
+        return 4 * min(sinb, ze) + steps * TOL1
+    return steps * TOL1
+
+
+def zcall(out, fkey, fn, X, ze, form, det):
+    """fn(X, zero_eps) with zero_eps passed positionally / by keyword. Returns (status, value), status in 'ok' | 'rejected' | 'failed'.
+    An argument-validation assert is a rejection only for ze = 0 (su2_to_angle / su2_to_so3 validate |U00-conj(U11)| < zero_eps,
+    which nothing satisfies at 0); for ze > 0 the reference matrices satisfy it to 1e-15, so any exception is a violation."""
+    from mc import core
+    out.trans()
+    try:
+        return 'ok', (fn(X, ze) if form == 'positional' else fn(X, zero_eps=ze))
+    except Exception as e:  # noqa
+        if ze == 0.0 and core.is_precondition_assert(e):
+            out.count('rejected_by_precondition')
+            return 'rejected', None
+        out.violation('%s/%s' % (fkey, type(e).__name__), '%s(., zero_eps=%g) raised %s: %s' % (fkey.split('/')[1], ze, type(e).__name__, str(e)[:200]), **det)
+        return 'failed', None
+
+
+def in_ranges(a, b, c, gmax):
+    a, b, c = np.asarray(a), np.asarray(b), np.asarray(c)
+    return bool(np.all(a >= 0) and np.all(a <= 2 * math.pi) and np.all(b >= 0) and np.all(b <= math.pi) and np.all(c >= 0) and np.all(c <= gmax))
+
+
+def run_zeps(case, out, env):
+    import numqi
+    g = numqi.group
+    NA, beta, bk, ze, form = case['NA'], case['beta'], case['beta_kind'], case['ze'], case['form']
+    cs, hcs = beta_trig(beta, bk)
+    ga = [k * 2 * math.pi / NA for k in range(NA)]
+    gg = [k * 2 * math.pi / NA for k in range(2 * NA)]
+    site = 'zero_eps'
+    base = {'beta': beta, 'beta_label': case['beta_label'], 'zero_eps': ze, 'passed': form}
+    Rall = np.array([[ref_so3(a, beta, c, cs) for c in ga] for a in ga])
+    Uall = np.array([[ref_su2(a, beta, c, hcs) for c in gg] for a in ga])
+    sbR, sbU = sinb_so3(Rall[0, 0]), sinb_su2(Uall[0, 0])
+    clsR = beta_class(sbR, Rall[0, 0, 2, 2])
+    clsU = beta_class(sbU, abs(Uall[0, 0, 0, 0]) - abs(Uall[0, 0, 0, 1]))
+    pend_so3 = ze == 0.0 and sbR == 0.0 and 'zero_eps_0_exact_pole' in PENDING
+
+    def so3_angles(R, ang, det, tag):
+        """angles returned for R under ze: finite, inside the documented ranges, rebuild R"""
+        if not finite(*ang):
+            out.violation('%s/so3_to_angle/nonfinite/%s' % (site, clsR), 'so3_to_angle(R, zero_eps=%g) returned NaN/Inf (%s)' % (ze, tag), **det)
+            return False
+        if not in_ranges(*ang, 2 * math.pi):
+            out.violation('%s/so3_to_angle/outside_documented_range' % site, 'so3_to_angle(R, zero_eps=%g) left [0,2pi]x[0,pi]x[0,2pi] (%s)' % (ze, tag), angles=[np.asarray(x) for x in ang], **det)
+            return False
+        return True
+
+    # ---- SO(3), element by element
+    angs = {}
+    for ia, a in enumerate(ga):
+        for ig, c in enumerate(ga):
+            out.state()
+            if pend_so3:
+                out.count('pending/zero_eps_0_exact_pole')
+                continue
+            R = Rall[ia, ig]
+            det = dict(base, alpha=a, gamma=c, R=R, sin_beta=sbR)
+            good = True
+            st, ang = zcall(out, '%s/so3_to_angle' % site, g.so3_to_angle, R.copy(), ze, form, det)
+            if st == 'ok' and so3_angles(R, ang, det, 'single'):
+                fl = [float(x) for x in ang]
+                angs[(ia, ig)] = fl
+                err, tol = float(np.abs(ref_so3(*fl) - R).max()), tol_rt_z(sbR, ze, 2)
+                if not err <= tol:
+                    out.violation('%s/so3_to_angle/rebuild_mismatch/%s' % (site, clsR),
+                                  'Rz Ry Rz of so3_to_angle(R, zero_eps=%g) differs from R by %.3g (tol %.3g), %s: angles %r' % (ze, err, tol, clsR, tuple(fl)), angles=fl, err=err, tol=tol, **det)
+                    good = False
+                out.outcome(('zso3', ze, np.round(np.array(fl), 5)), nontrivial=bool(np.abs(R - np.eye(3)).max() > 1e-6))
+            else:
+                good = False
+            st, V = zcall(out, '%s/so3_to_su2' % site, g.so3_to_su2, R.copy(), ze, form, det)
+            if st == 'ok':
+                V = np.asarray(V)
+                if V.shape != (2, 2) or not finite(V) or not is_su2(V, 8 * TOL1):
+                    out.violation('%s/so3_to_su2/not_su2' % site, 'so3_to_su2(R, zero_eps=%g) is not a finite special unitary 2x2 matrix' % ze, got=V, **det)
+                    good = False
+                else:
+                    err, tol = float(np.abs(ref_su2_to_so3(V) - R).max()), tol_rt_z(sbR, ze, 3)
+                    if not err <= tol:
+                        out.violation('%s/so3_to_su2/not_a_preimage/%s' % (site, clsR), 'the SO(3) image of so3_to_su2(R, zero_eps=%g) differs from R by %.3g (tol %.3g), %s' % (ze, err, tol, clsR),
+                                      got=V, err=err, tol=tol, **det)
+                        good = False
+                    if (ia, ig) in angs:
+                        # forwarding: so3_to_su2(R, ze) is angle_to_su2 of so3_to_angle(R, ze) - the same split of alpha+-gamma, up to the sign
+                        Vr = ref_su2(*angs[(ia, ig)])
+                        e = min(float(np.abs(V - Vr).max()), float(np.abs(V + Vr).max()))
+                        if not e <= 2 * TOL1:
+                            out.violation('%s/so3_to_su2/zero_eps_not_forwarded_to_so3_to_angle/%s' % (site, clsR),
+                                          'so3_to_su2(R, zero_eps=%g) differs by %.3g from +-Uz Uy Uz of so3_to_angle(R, zero_eps=%g) = %r' % (ze, e, ze, tuple(angs[(ia, ig)])),
+                                          got=V, angles=angs[(ia, ig)], err=e, **det)
+                            good = False
+            else:
+                good = False
+            if good:
+                out.trace()
+    # ---- SU(2), element by element
+    n_rej = 0
+    for ia, a in enumerate(ga):
+        for ig, c in enumerate(gg):
+            out.state()
+            U = Uall[ia, ig]
+            det = dict(base, alpha=a, gamma=c, U=U, sin_beta=sbU)
+            good = True
+            st, ang = zcall(out, '%s/su2_to_angle' % site, g.su2_to_angle, U.copy(), ze, form, det)
+            n_rej += st == 'rejected'
+            if st == 'ok':
+                if not finite(*ang):
+                    out.violation('%s/su2_to_angle/nonfinite/%s' % (site, clsU), 'su2_to_angle(U, zero_eps=%g) returned NaN/Inf' % ze, **det)
+                    good = False
+                elif not in_ranges(*ang, 4 * math.pi):
+                    out.violation('%s/su2_to_angle/outside_documented_range' % site, 'su2_to_angle(U, zero_eps=%g) left [0,2pi]x[0,pi]x[0,4pi]' % ze, angles=[float(x) for x in ang], **det)
+                    good = False
+                else:
+                    fl = [float(x) for x in ang]
+                    U1, tol = ref_su2(*fl), tol_rt_z(sbU, ze, 2)
+                    errp, errm = float(np.abs(U1 - U).max()), float(np.abs(U1 + U).max())
+                    if not errp <= tol:
+                        what = 'sign_4pi_branch' if errm <= tol else 'rebuild_mismatch'
+                        out.violation('%s/su2_to_angle/%s/%s' % (site, what, clsU),
+                                      'Uz Uy Uz of su2_to_angle(U, zero_eps=%g) differs from U by %.3g (from -U by %.3g), tol %.3g, %s: angles %r' % (ze, errp, errm, tol, clsU, tuple(fl)),
+                                      angles=fl, err=errp, tol=tol, **det)
+                        good = False
+                    out.outcome(('zsu2', ze, np.round(np.array(fl), 5)), nontrivial=bool(np.abs(U - np.eye(2)).max() > 1e-6))
+            elif st == 'failed':
+                good = False
+            st, Rz_ = zcall(out, '%s/su2_to_so3' % site, g.su2_to_so3, U.copy(), ze, form, det)
+            n_rej += st == 'rejected'
+            if st == 'ok':
+                ok, Rd = call(out, '%s/su2_to_so3' % site, g.su2_to_so3, (U.copy(),), det)
+                if ok and (np.shape(Rz_) != (3, 3) or not np.array_equal(np.asarray(Rz_), np.asarray(Rd))):
+                    out.violation('%s/su2_to_so3/differs_from_default_call' % site, 'su2_to_so3(U, zero_eps=%g) differs from su2_to_so3(U) (zero_eps only validates the argument)' % ze, got=Rz_, expected=Rd, **det)
+                    good = False
+                if np.shape(Rz_) == (3, 3) and not np.abs(np.asarray(Rz_) - ref_su2_to_so3(U)).max() <= TOL1:
+                    out.violation('%s/su2_to_so3/differs_from_trace_formula' % site, 'su2_to_so3(U, zero_eps=%g) differs from Re Tr(s_i U s_j U^+)/2' % ze, got=Rz_, **det)
+                    good = False
+            elif st == 'failed':
+                good = False
+            if good and st != 'rejected':
+                out.trace()
+    # ---- the whole grids as one batch under the same zero_eps
+    detb = dict(base, batch='whole (alpha,gamma) grid')
+    if not pend_so3:
+        out.state()
+        st, ang = zcall(out, '%s/so3_to_angle' % site, g.so3_to_angle, Rall.copy(), ze, form, detb)
+        if st == 'ok':
+            if any(np.shape(x) != (NA, NA) for x in ang):
+                out.violation('%s/so3_to_angle/batch_shape' % site, 'so3_to_angle(batch, zero_eps=%g) returned shapes %s' % (ze, [np.shape(x) for x in ang]), **detb)
+            elif so3_angles(Rall, ang, detb, 'batch'):
+                Rb = np.array([[ref_so3(ang[0][i, j], ang[1][i, j], ang[2][i, j]) for j in range(NA)] for i in range(NA)])
+                err = float(np.abs(Rb - Rall).max())
+                if not err <= tol_rt_z(sbR, ze, 2):
+                    out.violation('%s/so3_to_angle/batch_rebuild_mismatch/%s' % (site, clsR), 'so3_to_angle(whole grid, zero_eps=%g): rebuild error %.3g (tol %.3g)' % (ze, err, tol_rt_z(sbR, ze, 2)), err=err, **detb)
+                else:
+                    out.trace()
+        out.state()
+        st, V = zcall(out, '%s/so3_to_su2' % site, g.so3_to_su2, Rall.copy(), ze, form, detb)
+        if st == 'ok':
+            V = np.asarray(V)
+            if V.shape != (NA, NA, 2, 2) or not finite(V):
+                out.violation('%s/so3_to_su2/batch_shape_or_nonfinite' % site, 'so3_to_su2(batch, zero_eps=%g) has shape %s / non-finite entries' % (ze, V.shape), **detb)
+            else:
+                err = max(float(np.abs(ref_su2_to_so3(V[i, j]) - Rall[i, j]).max()) for i in range(NA) for j in range(NA))
+                if not err <= tol_rt_z(sbR, ze, 3):
+                    out.violation('%s/so3_to_su2/batch_not_a_preimage/%s' % (site, clsR), 'so3_to_su2(whole grid, zero_eps=%g): image differs from R by %.3g (tol %.3g)' % (ze, err, tol_rt_z(sbR, ze, 3)), err=err, **detb)
+                else:
+                    out.trace()
+    out.state()
+    st, ang = zcall(out, '%s/su2_to_angle' % site, g.su2_to_angle, Uall.copy(), ze, form, detb)
+    if st == 'ok':
+        if any(np.shape(x) != (NA, 2 * NA) for x in ang) or not finite(*ang) or not in_ranges(*ang, 4 * math.pi):
+            out.violation('%s/su2_to_angle/batch_shape_nonfinite_or_range' % site, 'su2_to_angle(batch, zero_eps=%g): shapes %s / NaN / outside the documented ranges' % (ze, [np.shape(x) for x in ang]), **detb)
+        else:
+            Ub = np.array([[ref_su2(ang[0][i, j], ang[1][i, j], ang[2][i, j]) for j in range(2 * NA)] for i in range(NA)])
+            err = float(np.abs(Ub - Uall).max())
+            if not err <= tol_rt_z(sbU, ze, 2):
+                out.violation('%s/su2_to_angle/batch_rebuild_mismatch/%s' % (site, clsU), 'su2_to_angle(whole grid, zero_eps=%g): rebuild error %.3g (tol %.3g)' % (ze, err, tol_rt_z(sbU, ze, 2)), err=err, **detb)
+            else:
+                out.trace()
+    if ze > 0 and n_rej:
+        out.violation('%s/su2/rejected_with_positive_zero_eps' % site, 'harness logic: rejection counted for zero_eps > 0', **base)
+    out.sample = {'kind': 'zeps', 'beta_label': case['beta_label'], 'zero_eps': ze, 'passed': form, 'so3_points': NA * NA, 'su2_points': 2 * NA * NA, 'su2_rejected_by_assert': int(n_rej)}
+
+
+# ----------------------------------------------------------------------------------------------- angles outside the canonical box
+PI = math.pi
+# (name, map of a canonical triple, sign s with Uz Uy Uz (mapped) = s * Uz Uy Uz (canonical)). SO(3) is blind to all of them.
+#   Uz(x + 2 pi k) = (-1)^k Uz(x);  Uy(-b) = Uz(pi) Uy(b) Uz(-pi)  =>  (a+pi, -b, g+pi) -> Uz(a+2pi) Uy(b) Uz(g) = -U;
+#   Uy(2pi - b) = -Uy(-b)  =>  (a+pi, 2pi-b, g+pi) -> +U.   The signs are re-verified on the reference matrices in run_anglebox.
+BOX_MAPS = [
+    ('alpha-2pi', lambda a, b, c: (a - 2 * PI, b, c), -1),
+    ('gamma-2pi', lambda a, b, c: (a, b, c - 2 * PI), -1),
+    ('alpha-2pi,gamma-2pi', lambda a, b, c: (a - 2 * PI, b, c - 2 * PI), 1),
+    ('alpha+4pi,gamma+4pi', lambda a, b, c: (a + 4 * PI, b, c + 4 * PI), 1),
+    ('alpha+4pi,gamma-2pi', lambda a, b, c: (a + 4 * PI, b, c - 2 * PI), -1),
+    ('alpha+pi,-beta,gamma+pi', lambda a, b, c: (a + PI, -b, c + PI), -1),
+    ('alpha+pi,2pi-beta,gamma+pi', lambda a, b, c: (a + PI, 2 * PI - b, c + PI), 1),
+]
+
+
+def run_anglebox(case, out, env):
+    """Euler triples outside [0,2pi) x [0,pi] x [0,4pi) that name the same group element as a canonical grid triple (up to the known
+    sign for SU(2) / odd j2): the forward maps give the canonical matrix, the way back lands inside the documented ranges and
+    rebuilds the canonical matrix (sign-exact for SU(2)). Angles have magnitude < 8 pi: argument reduction costs 8 pi eps << TOL1."""
+    import numqi
+    g = numqi.group
+    NA, beta, j2s = case['NA'], case['beta'], case['j2s']
+    ga = [k * 2 * PI / NA for k in range(NA)]
+    gg = [k * 2 * PI / NA for k in range(2 * NA)]
+    site = 'anglebox'
+    for a in ga:
+        for c in gg:
+            Rc, Uc = ref_so3(a, beta, c), ref_su2(a, beta, c)
+            sbR, sbU = sinb_so3(Rc), sinb_su2(Uc)
+            clsR, clsU = beta_class(sbR, Rc[2, 2]), beta_class(sbU, abs(Uc[0, 0]) - abs(Uc[0, 1]))
+            Dc = {j2: ref_irrep(j2, Uc) for j2 in j2s}
+            for name, fmap, sgn in BOX_MAPS:
+                out.state()
+                t = fmap(a, beta, c)
+                if not np.abs(ref_su2(*t) - sgn * Uc).max() <= TOL1 or not np.abs(ref_so3(*t) - Rc).max() <= TOL1:
+                    raise RuntimeError('harness: sign table of BOX_MAPS is wrong for %s' % name)
+                det = {'canonical': [a, beta, c], 'map': name, 'angles': list(t), 'beta_label': case['beta_label']}
+                good = True
+                ok, R = call(out, '%s/angle_to_so3' % site, g.angle_to_so3, t, det)
+                if ok:
+                    R = np.asarray(R)
+                    if R.shape != (3, 3) or not np.abs(R - Rc).max() <= TOL1:
+                        out.violation('%s/angle_to_so3/differs_from_canonical_triple/%s' % (site, name), 'angle_to_so3%r differs from angle_to_so3 of the canonical triple (%r,%r,%r)' % (t, a, beta, c), got=R, expected=Rc, **det)
+                        good = False
+                    else:
+                        ok, ang = call(out, '%s/so3_to_angle' % site, g.so3_to_angle, (R.copy(),), det)
+                        if ok and (not finite(*ang) or not in_ranges(*ang, 2 * PI)):
+                            out.violation('%s/so3_to_angle/outside_documented_range' % site, 'so3_to_angle(angle_to_so3%r) = %r: NaN or outside [0,2pi]x[0,pi]x[0,2pi]' % (t, tuple(float(x) for x in ang)), **det)
+                            good = False
+                        elif ok:
+                            err, tol = float(np.abs(ref_so3(*ang) - Rc).max()), tol_rt(sbR, 2)
+                            if not err <= tol:
+                                out.violation('%s/so3_to_angle/rebuild_mismatch/%s' % (site, clsR), 'so3_to_angle(angle_to_so3%r) rebuilds the canonical rotation with error %.3g (tol %.3g)' % (t, err, tol), err=err, **det)
+                                good = False
+                        else:
+                            good = False
+                else:
+                    good = False
+                ok, U = call(out, '%s/angle_to_su2' % site, g.angle_to_su2, t, det)
+                if ok:
+                    U = np.asarray(U)
+                    if U.shape != (2, 2) or not np.abs(U - sgn * Uc).max() <= TOL1:
+                        what = 'sign' if U.shape == (2, 2) and np.abs(U + sgn * Uc).max() <= TOL1 else 'value'
+                        out.violation('%s/angle_to_su2/differs_from_signed_canonical_triple/%s/%s' % (site, what, name),
+                                      'angle_to_su2%r differs from %+d * angle_to_su2 of the canonical triple (%r,%r,%r)' % (t, sgn, a, beta, c), got=U, expected=sgn * Uc, **det)
+                        good = False
+                    else:
+                        ok, ang = call(out, '%s/su2_to_angle' % site, g.su2_to_angle, (U.copy(),), det)
+                        if ok and (not finite(*ang) or not in_ranges(*ang, 4 * PI)):
+                            out.violation('%s/su2_to_angle/outside_documented_range' % site, 'su2_to_angle(angle_to_su2%r) = %r: NaN or outside [0,2pi]x[0,pi]x[0,4pi]' % (t, tuple(float(x) for x in ang)), **det)
+                            good = False
+                        elif ok:
+                            U1, tol = ref_su2(*ang), tol_rt(sbU, 2)
+                            errp, errm = float(np.abs(U1 - sgn * Uc).max()), float(np.abs(U1 + sgn * Uc).max())
+                            if not errp <= tol:
+                                out.violation('%s/su2_to_angle/%s/%s' % (site, 'sign_4pi_branch' if errm <= tol else 'rebuild_mismatch', clsU),
+                                              'su2_to_angle(angle_to_su2%r) rebuilds %+d*U(canonical) with error %.3g (the opposite sign: %.3g), tol %.3g' % (t, sgn, errp, errm, tol), err=errp, **det)
+                                good = False
+                            out.outcome(('box', name, np.round(np.array([float(x) for x in ang]), 5)), nontrivial=bool(np.abs(Uc - np.eye(2)).max() > 1e-6))
+                        else:
+                            good = False
+                else:
+                    good = False
+                for j2 in j2s:
+                    ok, D = call(out, '%s/get_su2_irrep(angles)' % site, g.get_su2_irrep, (j2,) + tuple(t), dict(det, j2=j2))
+                    if not ok:
+                        good = False
+                        continue
+                    D = np.asarray(D)
+                    Dr = (sgn ** j2) * Dc[j2]
+                    if D.shape != Dr.shape or not finite(D) or not np.abs(D - Dr).max() <= tol_irrep(j2):
+                        what = 'sign' if D.shape == Dr.shape and np.abs(D + Dr).max() <= tol_irrep(j2) else 'value'
+                        out.violation('%s/get_su2_irrep(angles)/differs_from_signed_canonical_triple/%s/%s' % (site, what, name),
+                                      'get_su2_irrep(%d, %r, %r, %r) differs from (%+d)^%d * D(canonical triple (%r,%r,%r))' % ((j2,) + tuple(t) + (sgn, j2, a, beta, c)), j2=j2, got=D, expected=Dr, **det)
+                        good = False
+                if good:
+                    out.trace()
+    out.sample = {'kind': 'anglebox', 'beta_label': case['beta_label'], 'maps': [m[0] for m in BOX_MAPS], 'canonical_points': 2 * NA * NA}
+
+
+INT_ALPHA, INT_BETA, INT_GAMMA = (0, 1, 4, -3, 7), (0, 1, 2, 3, -2, 4), (0, 2, 5, -6, 13)
+
+
+def run_angleforms(case, out, env):
+    """non-array argument forms of the angle entries: python ints (ALL triples of a small integer alphabet, beta outside [0,pi]
+    included), mixed int / float, np.int64, python lists (of floats, of ints, nested, list + scalar broadcasting). Reference:
+    the float triple element by element."""
+    import numqi
+    g = numqi.group
+    site = 'angleforms'
+    j2s = case['j2s']
+    trip = list(itertools.product(INT_ALPHA, INT_BETA, INT_GAMMA))
+
+    def one(fname, fn, args, expected, tol, det, pre=()):
+        ok, y = call(out, '%s/%s' % (site, fname), fn, tuple(pre) + tuple(args), det)
+        if not ok:
+            return None
+        y = np.asarray(y)
+        if y.shape != expected.shape or not finite(y) or not np.abs(y - expected).max() <= tol:
+            out.violation('%s/%s/%s/differs_from_float_call' % (site, fname, det['form']), '%s with %s arguments %r: shape %s (expected %s) / differs from the float reference' % (fname, det['form'], det['args'], y.shape, expected.shape),
+                          got=y, expected=expected, **det)
+            return None
+        out.trace()
+        return y
+    # scalars: python int, np.int64, mixed
+    scal = [('python_int', lambda t: t), ('np.int64', lambda t: tuple(np.int64(x) for x in t)), ('int_float_int', lambda t: (t[0], float(t[1]), t[2])),
+            ('0d_int_array', lambda t: tuple(np.array(x) for x in t))]
+    for t in trip:
+        ft = tuple(float(x) for x in t)
+        Rc, Uc = ref_so3(*ft), ref_su2(*ft)
+        for form, conv in scal:
+            out.state()
+            det = {'form': form, 'args': list(t)}
+            R = one('angle_to_so3', g.angle_to_so3, conv(t), Rc, TOL1, det)
+            one('angle_to_su2', g.angle_to_su2, conv(t), Uc, TOL1, det)
+            for j2 in j2s:
+                one('get_su2_irrep(angles)', g.get_su2_irrep, conv(t), ref_irrep(j2, Uc), tol_irrep(j2), dict(det, j2=j2), pre=(j2,))
+            if form == 'python_int' and R is not None:
+                # the way back from an integer triple (beta possibly negative or above pi): documented ranges, same rotation
+                ok, ang = call(out, '%s/so3_to_angle' % site, g.so3_to_angle, (R.copy(),), det)
+                if ok:
+                    if not finite(*ang) or not in_ranges(*ang, 2 * PI):
+                        out.violation('%s/so3_to_angle/outside_documented_range' % site, 'so3_to_angle(angle_to_so3%r) = %r' % (t, tuple(float(x) for x in ang)), **det)
+                    elif not np.abs(ref_so3(*ang) - Rc).max() <= tol_rt(sinb_so3(Rc), 2):
+                        out.violation('%s/so3_to_angle/rebuild_mismatch' % site, 'so3_to_angle(angle_to_so3%r) does not rebuild the rotation' % (t,), angles=[float(x) for x in ang], **det)
+                    out.outcome(('ints', np.round(np.array([float(x) for x in ang]), 5)), nontrivial=bool(np.abs(Rc - np.eye(3)).max() > 1e-6))
+    # lists
+    n = len(trip)
+    A, B, C = [[t[k] for t in trip] for k in range(3)]
+    Rall, Uall = np.array([ref_so3(*map(float, t)) for t in trip]), np.array([ref_su2(*map(float, t)) for t in trip])
+    lists = [('list_of_int', (A, B, C), (n,), lambda i: i),
+             ('list_of_float', ([float(x) for x in A], [float(x) for x in B], [float(x) for x in C]), (n,), lambda i: i),
+             ('nested_list', ([A[:n // 2], A[n // 2:]], [B[:n // 2], B[n // 2:]], [C[:n // 2], C[n // 2:]]), (2, n // 2), lambda i: i),
+             ('tuple_of_int', (tuple(A), tuple(B), tuple(C)), (n,), lambda i: i)]
+    for form, args, shape, _ in lists:
+        out.state()
+        det = {'form': form, 'args': 'all %d integer triples' % n}
+        one('angle_to_so3', g.angle_to_so3, args, Rall.reshape(shape + (3, 3)), TOL1, det)
+        one('angle_to_su2', g.angle_to_su2, args, Uall.reshape(shape + (2, 2)), TOL1, det)
+        for j2 in j2s:
+            one('get_su2_irrep(angles)', g.get_su2_irrep, args, np.array([ref_irrep(j2, U) for U in Uall]).reshape(shape + (j2 + 1, j2 + 1)), tol_irrep(j2), dict(det, j2=j2), pre=(j2,))
+    # list + python scalar broadcasting: alpha list, beta int, gamma list
+    for b in INT_BETA:
+        out.state()
+        sel = [t for t in trip if t[1] == b]
+        args = ([t[0] for t in sel], b, [float(t[2]) for t in sel])
+        det = {'form': 'list_int_list', 'args': [args[0], b, args[2]]}
+        Us = np.array([ref_su2(*map(float, t)) for t in sel])
+        one('angle_to_so3', g.angle_to_so3, args, np.array([ref_so3(*map(float, t)) for t in sel]), TOL1, det)
+        one('angle_to_su2', g.angle_to_su2, args, Us, TOL1, det)
+        for j2 in j2s:
+            one('get_su2_irrep(angles)', g.get_su2_irrep, args, np.array([ref_irrep(j2, U) for U in Us]), tol_irrep(j2), dict(det, j2=j2), pre=(j2,))
+    out.sample = {'kind': 'angleforms', 'integer_triples': n, 'alphabets': [INT_ALPHA, INT_BETA, INT_GAMMA]}
+
+
+# ----------------------------------------------------------------------------------------------- input dtypes
+DTYPE_FORMS = ['so3_complex128', 'so3_int64', 'su2_float64', 'su2_int64']
+
+
+def run_dtype(case, out, env):
+    """the same rotations handed over in another dtype: SO(3) matrices typed complex128 (zero imaginary part; so3_to_angle has an
+    explicit .real branch) - whole rotation alphabet and an (alpha,gamma) grid for every beta -, the octahedral rotation matrices
+    as int64, the real elements of the binary octahedral group as float64 and (entries 0, +-1) as int64. Oracles unchanged."""
+    import numqi
+    g = numqi.group
+    form, NA = case['form'], case['NA']
+    grp, dt = form.split('_')
+    dt = np.dtype(dt)
+    site = 'dtype_' + form
+    labels, Us, Rs_, kinds = rotation_alphabet(env)
+    if grp == 'so3':
+        elems = [(lab, R) for lab, R, k in zip(labels, Rs_, kinds) if dt.kind == 'c' or k == 'octa']
+        if dt.kind == 'c':
+            grid = [k * 2 * math.pi / NA for k in range(NA)]
+            for lab, b, bk in beta_alphabet(env.tier):
+                elems += [('so3(%r,%s,%r)' % (a, lab, c), ref_so3(a, b, c, beta_trig(b, bk)[0])) for a in grid for c in grid]
+        else:
+            assert all(np.array_equal(R, np.round(R)) for _, R in elems)
+        for lab, R in elems:
+            out.state()
+            chain_so3(numqi, out, R, site, {'element': lab, 'dtype': str(dt)}, cast=dt)
+        # all of them as one batch: bit-identical with the float64 batch (the conversion to float64 is exact)
+        X = np.array([R for _, R in elems])
+        det = {'dtype': str(dt), 'batch': '%d elements' % len(elems)}
+        for fname, fn in (('so3_to_angle', g.so3_to_angle), ('so3_to_su2', g.so3_to_su2)):
+            out.state()
+            ok1, y1 = call(out, '%s/%s' % (site, fname), fn, (X.astype(dt),), det)
+            ok0, y0 = call(out, 'gridbatch/%s' % fname, fn, (X.copy(),), det)
+            if ok1 and ok0:
+                y1, y0 = [np.asarray(v) for v in (y1, y0)]
+                if y1.shape != y0.shape or y1.dtype != y0.dtype or not np.array_equal(y1, y0):
+                    out.violation('%s/%s/batch_differs_from_float64_input' % (site, fname), '%s on a %s-typed batch differs from the float64 batch (dtypes %s / %s)' % (fname, dt, y1.dtype, y0.dtype), **det)
+                else:
+                    out.trace()
+    else:
+        elems = [(lab, U) for lab, U, k in zip(labels, Us, kinds) if k == 'octa' and not np.any(U.imag) and (dt.kind == 'f' or np.array_equal(U.real, np.round(U.real)))]
+        assert len(elems) == (8 if dt.kind == 'f' else 4)
+        for lab, U in elems:
+            out.state()
+            det = {'element': lab, 'dtype': str(dt)}
+            chain_su2(numqi, out, U, site, det, cast=dt)
+            for j2 in range(case['j2max'] + 1):
+                D = impl_irrep(numqi, out, j2, U.real.astype(dt), site, det)
+                if D is None:
+                    continue
+                e = float(np.abs(D - ref_irrep(j2, U)).max())
+                if not e <= tol_irrep(j2):
+                    out.violation('%s/get_su2_irrep/matrix_entry/differs_from_symmetric_power' % site, 'get_su2_irrep(%d, U typed %s) differs from the symmetric power of U by %.3g for %s' % (j2, dt, e, lab),
+                                  j2=j2, U=U, err=e, **det)
+                else:
+                    out.trace()
+        X = np.array([U for _, U in elems])
+        det = {'dtype': str(dt), 'batch': '%d elements' % len(elems)}
+        out.state()
+        ok, ang = call(out, '%s/su2_to_angle' % site, g.su2_to_angle, (X.real.astype(dt),), det)
+        if ok:
+            if any(np.shape(x) != (len(elems),) for x in ang) or not finite(*ang):
+                out.violation('%s/su2_to_angle/batch_shape_or_nonfinite' % site, 'su2_to_angle on a %s-typed batch: shapes %s / NaN' % (dt, [np.shape(x) for x in ang]), **det)
+            else:
+                err = max(float(np.abs(ref_su2(ang[0][i], ang[1][i], ang[2][i]) - X[i]).max()) for i in range(len(elems)))
+                if not err <= 2 * TOL1:
+                    out.violation('%s/su2_to_angle/batch_rebuild_mismatch' % site, 'su2_to_angle on a %s-typed batch: rebuild error %.3g' % (dt, err), err=err, **det)
+                else:
+                    out.trace()
+        out.state()
+        ok, Rb = call(out, '%s/su2_to_so3' % site, g.su2_to_so3, (X.real.astype(dt),), det)
+        if ok:
+            Rb = np.asarray(Rb)
+            Rr = np.array([ref_su2_to_so3(U) for U in X])
+            if Rb.shape != Rr.shape or Rb.dtype.kind != 'f' or not np.abs(Rb - Rr).max() <= TOL1:
+                out.violation('%s/su2_to_so3/batch_mismatch' % site, 'su2_to_so3 on a %s-typed batch has shape %s dtype %s / differs from the trace formula' % (dt, Rb.shape, Rb.dtype), **det)
+            else:
+                out.trace()
+    out.count('dtype_elements[%s]' % form, len(elems))
+    out.sample = {'kind': 'dtype', 'form': form, 'elements': len(elems), 'first': elems[0][0]}
+
+
 # ----------------------------------------------------------------------------------------------- pairs
 def impl_irrep(numqi, out, j2, U, site, det):
     ok, D = call(out, '%s/get_su2_irrep' % site, numqi.group.get_su2_irrep, (j2, U.copy()), dict(det, j2=j2, U=U))
@@ -722,6 +1239,40 @@ def impl_irrep(numqi, out, j2, U, site, det):
         out.violation('irrep/get_su2_irrep/shape_or_nonfinite', 'get_su2_irrep(%d, U) has shape %s / non-finite entries' % (j2, D.shape), **dict(det, j2=j2, U=U))
         return None
     return D.astype(np.complex128)
+
+
+def ref_smalld(j2, b, half_cs=None):
+    """reference Wigner small-d matrix d^j(beta) = D(0, beta, 0): the symmetric power of the real matrix Uy(beta)"""
+    D = ref_irrep(j2, uy2(float(b), half_cs))
+    assert not np.any(D.imag)
+    return D.real
+
+
+def check_matd(out, fkey, j2, res, Ddefault, dref, shape, det, what):
+    """res = get_su2_irrep(j2, ..., return_matd=True): a pair (D, matd); D bit-identical with the default call (same arithmetic),
+    matd real with shape (..., j2+1, j2+1) and equal to the small-d matrix of the element's beta. beta is never discarded by the
+    gimbal-lock branch (only the split of alpha+-gamma is), so no zero_eps allowance: tol = 1e3*eps*2^j2."""
+    n = j2 + 1
+    if not (isinstance(res, tuple) and len(res) == 2):
+        out.violation('%s/return_matd/not_a_pair' % fkey, '%s with return_matd=True returned %s instead of a pair' % (what, type(res).__name__), **det)
+        return False
+    D, d = np.asarray(res[0]), np.asarray(res[1])
+    if D.shape != shape + (n, n) or d.shape != shape + (n, n) or d.dtype.kind != 'f' or not finite(d):
+        out.violation('%s/return_matd/shape_dtype_nonfinite' % fkey, '%s with return_matd=True: shapes %s, %s (expected %s), matd dtype %s / non-finite'
+                      % (what, D.shape, d.shape, shape + (n, n), d.dtype), **det)
+        return False
+    good = True
+    if Ddefault is not None and not np.array_equal(D.astype(np.complex128), np.asarray(Ddefault).astype(np.complex128)):
+        out.violation('%s/return_matd/first_element_differs_from_default_call' % fkey, '%s: the first element returned with return_matd=True differs from the default call' % what, **det)
+        good = False
+    e = float(np.abs(d - dref).max())
+    if not e <= tol_irrep(j2):
+        out.violation('%s/return_matd/matd_differs_from_small_d' % fkey, '%s: matd differs from the small-d matrix D(0,beta,0) by %.3g (tol %.3g)' % (what, e, tol_irrep(j2)),
+                      err=e, matd=d, expected=dref, **det)
+        good = False
+    if good:
+        out.count('return_matd_compared')
+    return good
 
 
 def run_pairs(case, out, env):
@@ -847,11 +1398,39 @@ def run_irrep(case, out, env):
     ga = [k * 2 * math.pi / NA for k in range(NA)]
     gg = [k * 2 * math.pi / NA for k in range(2 * NA)]
     atoms = generic_atoms(env, 2 if env.tier == 'quick' else 6, tag='irrep_atoms')
-    points = [(a, b, c, bk, lab) for lab, b, bk in betas for a in ga for c in gg] + [(a, b, c, 'num', 'atom') for a, b, c in atoms]
+    q = max(NA // 4, 1)   # scalar return_matd calls on the sub-grid of multiples of pi/2 (+ atoms); the complete grid goes through the batched calls
+    points = [(a, b, c, bk, lab, (ia, ig)) for lab, b, bk in betas for ia, a in enumerate(ga) for ig, c in enumerate(gg)] + [(a, b, c, 'num', 'atom', None) for a, b, c in atoms]
     site = 'irrep'
     first = True
-    # the angle entry through broadcasting: alpha (NA,1), beta scalar, gamma (1,2NA) - one call per beta
+    dcache = {}
+    Drgrid = {}
+
+    def smalld(b, bk):
+        if (b, bk) not in dcache:
+            dcache[(b, bk)] = ref_smalld(j2, b, beta_trig(b, bk)[1])
+        return dcache[(b, bk)]
+    # per beta: the angle entry through broadcasting (alpha (NA,1), beta scalar, gamma (1,2NA)) and the matrix entry on the whole
+    # (alpha,gamma) grid as one (NA,2NA) batch; both once more with return_matd=True
     for lab, b, bk in betas:
+        hcs = beta_trig(b, bk)[1]
+        Ugrid = np.array([[ref_su2(a, b, c, hcs) for c in gg] for a in ga])
+        Dr = np.array([[ref_irrep(j2, Ugrid[ia, ig]) for ig in range(2 * NA)] for ia in range(NA)])
+        Drgrid[lab] = Dr
+        gshape = (NA, 2 * NA)
+        out.state()
+        det = {'j2': j2, 'beta': b, 'beta_label': lab, 'batch': 'whole (alpha,gamma) grid of SU(2) matrices, shape (%d,%d,2,2)' % gshape}
+        band = in_band(sinb_su2(Ugrid[0, 0]))
+        ok, Dmb = call(out, '%s/get_su2_irrep' % site, g.get_su2_irrep, (j2, Ugrid.copy()), det)
+        if ok:
+            Dmb = np.asarray(Dmb)
+            if Dmb.shape != Dr.shape or not finite(Dmb) or not np.abs(Dmb - Dr).max() <= tol_irrep(j2, band):
+                out.violation('%s/get_su2_irrep/gridbatch_mismatch' % site,
+                              'get_su2_irrep(%d, U) on the (alpha,gamma) grid at beta=%s as one batch has shape %s (expected %s) / differs from the reference element-wise' % (j2, lab, Dmb.shape, Dr.shape), **det)
+            else:
+                out.trace()
+            ok, res = call(out, '%s/get_su2_irrep' % site, g.get_su2_irrep, (j2, Ugrid.copy()), det, kw={'return_matd': True})
+            if ok:
+                check_matd(out, '%s/get_su2_irrep' % site, j2, res, Dmb, np.broadcast_to(smalld(b, bk), Dr.shape), gshape, det, 'get_su2_irrep(%d, U grid at beta=%s)' % (j2, lab))
         if bk != 'num':
             continue
         out.state()
@@ -859,17 +1438,21 @@ def run_irrep(case, out, env):
         ok, Db = call(out, '%s/get_su2_irrep(angles)' % site, g.get_su2_irrep, (j2, np.array(ga)[:, None], b, np.array(gg)[None, :]), det)
         if ok:
             Db = np.asarray(Db)
-            Dr = np.array([[ref_irrep(j2, ref_su2(a, b, c)) for c in gg] for a in ga])
             if Db.shape != Dr.shape or not finite(Db) or not np.abs(Db - Dr).max() <= tol_irrep(j2):
                 out.violation('%s/get_su2_irrep(angles)/broadcast_mismatch' % site,
                               'get_su2_irrep(%d, alpha[:,None], %r, gamma[None,:]) has shape %s (expected %s) / differs from the reference element-wise' % (j2, b, Db.shape, Dr.shape), **det)
             else:
                 out.trace()
-    for a, b, c, bk, lab in points:
+            ok, res = call(out, '%s/get_su2_irrep(angles)' % site, g.get_su2_irrep, (j2, np.array(ga)[:, None], b, np.array(gg)[None, :]), det, kw={'return_matd': True})
+            if ok:
+                check_matd(out, '%s/get_su2_irrep(angles)' % site, j2, res, Db, np.broadcast_to(smalld(b, bk), Dr.shape), gshape, det,
+                           'get_su2_irrep(%d, alpha[:,None], %r, gamma[None,:])' % (j2, b))
+    for a, b, c, bk, lab, gi in points:
         out.state()
         _, hcs = beta_trig(b, bk)
         U = ref_su2(a, b, c, hcs)
-        Dr = ref_irrep(j2, U)
+        Dr = ref_irrep(j2, U) if gi is None else Drgrid[lab][gi]
+        sub = gi is None or (gi[0] % q == 0 and gi[1] % q == 0)
         sb = sinb_su2(U)
         band = in_band(sb)
         cls = beta_class(sb, abs(U[0, 0]) - abs(U[0, 1]))
@@ -900,6 +1483,9 @@ def run_irrep(case, out, env):
             if not eu <= tol_irrep(j2, False, 2):
                 out.violation('%s/get_su2_irrep/matrix_entry/not_unitary/%s' % (site, cls), 'get_su2_irrep(%d, U) is not unitary: %.3g' % (j2, eu), err=eu, **det)
                 good = False
+            if sub:
+                ok, res = call(out, '%s/get_su2_irrep' % site, g.get_su2_irrep, (j2, U.copy()), det, kw={'return_matd': True})
+                good &= bool(ok) and check_matd(out, '%s/get_su2_irrep' % site, j2, res, Dm, smalld(b, bk), (), det, 'get_su2_irrep(%d, U=su2(%r,%r,%r))' % (j2, a, b, c))
         if bk == 'num':
             ok, Da = call(out, '%s/get_su2_irrep(angles)' % site, g.get_su2_irrep, (j2, a, b, c), det)
             if ok:
@@ -922,10 +1508,32 @@ def run_irrep(case, out, env):
                                           err=e, **det)
                             good = False
                     out.outcome(('D', j2, np.round(Da, 5)), nontrivial=bool(np.abs(Da - np.diag(np.diag(Da))).max() > 1e-6))
+                    if sub:
+                        ok, res = call(out, '%s/get_su2_irrep(angles)' % site, g.get_su2_irrep, (j2, a, b, c), det, kw={'return_matd': True})
+                        good &= bool(ok) and check_matd(out, '%s/get_su2_irrep(angles)' % site, j2, res, Da, smalld(b, bk), (), det, 'get_su2_irrep(%d, %r, %r, %r)' % (j2, a, b, c))
             else:
                 good = False
         if good:
             out.trace()
+    # j2 argument forms (the docstring allows j = 0, 0.5, 1 ... given as j2; the code normalises with int() in front of a cached
+    # coefficient table): float / np.float64 / np.int64 give bit-identically what the python int gives, with a cold table first
+    fpts = [atoms[0], (4.5, 0.0, 0.0), (2.0, math.pi, 5.0), (1.0, 3e-8, 2.0)]
+    for fname, v in (('float', float(j2)), ('np.float64', np.float64(j2)), ('np.int64', np.int64(j2))):
+        for entry in ('matrix', 'angles'):
+            for a, b, c in fpts:
+                out.state()
+                args = (ref_su2(a, b, c),) if entry == 'matrix' else (a, b, c)
+                det = {'j2': j2, 'j2_form': fname, 'entry': entry, 'alpha': a, 'beta': b, 'gamma': c}
+                fkey = '%s/get_su2_irrep%s/j2_form/%s' % (site, '' if entry == 'matrix' else '(angles)', fname)
+                clear_irrep_cache(numqi)
+                okf, Df = call(out, fkey, g.get_su2_irrep, (v,) + tuple(np.copy(x) for x in args), det)
+                oki, Di = call(out, '%s/get_su2_irrep' % site, g.get_su2_irrep, (j2,) + tuple(np.copy(x) for x in args), det)
+                if okf and oki:
+                    if np.shape(Df) != np.shape(Di) or not np.array_equal(np.asarray(Df), np.asarray(Di)):
+                        out.violation(fkey + '/differs_from_int_call', 'get_su2_irrep(%s(%d), %s) differs from get_su2_irrep(%d, %s)' % (fname, j2, entry, j2, entry), got=Df, expected=Di, **det)
+                    else:
+                        out.count('j2_form_compared')
+                        out.trace()
     out.sample = {'kind': 'irrep', 'j2': j2, 'points': len(points), 'atoms': atoms}
 
 
@@ -995,11 +1603,22 @@ def run_batch(case, out, env):
     for k in range(K):
         out.trans()
         singles.append(single(k))
+    # return_matd coordinate of the irrep families: element-wise small-d matrices from scalar-shaped calls with return_matd=True
+    singles_d = [None] * K
+    if fam.startswith('irrep'):
+        for k in range(K):
+            out.trans()
+            try:
+                r = [g.get_su2_irrep(j2, *((Us[k].copy(),) if fam == 'irrep_mat' else tuple(ang[k])), return_matd=True) for j2 in BATCH_J2]
+                if all(isinstance(x, tuple) and len(x) == 2 for x in r):
+                    singles_d[k] = [np.asarray(x[1]) for x in r]
+            except Exception:  # noqa: reported by the irrep cases
+                pass
     n_single_failed = sum(s is None for s in singles)
     if n_single_failed:
         out.count('batch_alphabet_elements_whose_single_call_fails', n_single_failed)
 
-    def compare(idx, got_list, mixture, extra=''):
+    def compare(idx, got_list, mixture, extra='', singles=singles, cls='differs_from_elementwise'):
         """got_list: list over components (1, or len(BATCH_J2)) of arrays with shape idx.shape + tail"""
         flat = idx.reshape(-1)
         for ci, got in enumerate(got_list):
@@ -1017,7 +1636,7 @@ def run_batch(case, out, env):
                 j2 = BATCH_J2[ci] if fam.startswith('irrep') else 0
                 tol = tol_irrep(j2, False, 2) if fam.startswith('irrep') else 2 * TOL1
                 if gf[pos].shape != np.shape(s) or not finite(gf[pos]) or not np.abs(gf[pos] - s).max() <= tol:
-                    out.violation('%s/differs_from_elementwise/%s' % (site, mixture),
+                    out.violation('%s/%s/%s' % (site, cls, mixture),
                                   '%s%s: element %d (%s) of the batch %s (shape %s) differs from the single call on that element' % (fam, extra, pos, labels[k], [labels[i] for i in flat], idx.shape),
                                   batch=[labels[i] for i in flat], batch_shape=list(idx.shape), position=pos, got=gf[pos], single=s,
                                   angles_of_batch=ang[flat], **({'j2': j2} if j2 else {}))
@@ -1086,6 +1705,38 @@ def run_batch(case, out, env):
             if ys is None:
                 continue
             good = compare(idx, ys, mixture)
+            if env.tier == 'quick' and arr not in ('1d', '(1,3)', '(3,1)'):
+                out.outcome((fam, tuple(int(v) for v in sorted(set(flat.tolist()))), mixture), nontrivial=mixture == 'mixed_degenerate_and_generic')
+                if good:
+                    out.trace()
+                continue  # quick tier: the return_matd coordinate on all tuples of length 1..3 only (thorough: every arrangement)
+            # the same batch with return_matd=True: first element bit-identical with the default call, matd element-wise
+            yd = []
+            for ci, j2 in enumerate(BATCH_J2):
+                out.trans()
+                try:
+                    if fam == 'irrep_mat':
+                        r = g.get_su2_irrep(j2, Us[idx].copy(), return_matd=True)
+                    else:
+                        r = g.get_su2_irrep(j2, ang[idx][..., 0].copy(), ang[idx][..., 1].copy(), ang[idx][..., 2].copy(), return_matd=True)
+                except Exception as e:  # noqa
+                    out.violation(key % ('return_matd/' + type(e).__name__), 'get_su2_irrep(%d, %s, return_matd=True) raised %s on the batch %s: %s'
+                                  % (j2, 'U' if fam == 'irrep_mat' else 'angles', type(e).__name__, det['batch'], str(e)[:160]), j2=j2, **det)
+                    yd = None
+                    break
+                if not (isinstance(r, tuple) and len(r) == 2) or np.asarray(r[1]).dtype.kind != 'f':
+                    out.violation('%s/return_matd/not_a_pair_with_real_matd' % site, 'get_su2_irrep(%d, batch, return_matd=True) returned %s' % (j2, type(r).__name__), j2=j2, **det)
+                    yd = None
+                    break
+                if not np.array_equal(np.asarray(r[0]), np.asarray(ys[ci])):
+                    out.violation('%s/return_matd/first_element_differs_from_default_call/%s' % (site, mixture),
+                                  'get_su2_irrep(%d, batch %s): the first element returned with return_matd=True differs from the default call' % (j2, det['batch']), j2=j2, **det)
+                    good = False
+                yd.append(r[1])
+            if yd is None:
+                continue
+            good &= compare(idx, yd, mixture, extra=' matd (return_matd=True)', singles=singles_d, cls='return_matd/matd_differs_from_elementwise')
+            out.count('return_matd_compared')
         out.outcome((fam, tuple(int(v) for v in sorted(set(flat.tolist()))), mixture), nontrivial=mixture == 'mixed_degenerate_and_generic')
         if good:
             out.trace()
